@@ -243,12 +243,45 @@ def run(ctx) -> None:
         def classify(leaf: ast.AST) -> T.Tuple[str, bool]:
             if isinstance(leaf, ast.Compare) and isinstance(leaf.ops[0], (ast.In, ast.NotIn)) and isinstance(leaf.left, ast.Constant) and isinstance(leaf.left.value, bytes):
                 return leaf.left.value.decode(), isinstance(leaf.ops[0], ast.In)
+            # a compiled expression searched in the file content: decided on the header spellings the readers accept
+            e = leaf
+            while isinstance(e, ast.Call) and unparse(e.func) == "bool" and len(e.args) == 1:
+                e = e.args[0]
+            pol = True
+            if isinstance(e, ast.Compare) and len(e.ops) == 1 and isinstance(e.ops[0], (ast.Is, ast.IsNot)) and isinstance(e.comparators[0], ast.Constant) and e.comparators[0].value is None:
+                pol = isinstance(e.ops[0], ast.IsNot)
+                e = e.left
+            if isinstance(e, ast.Call) and isinstance(e.func, ast.Attribute) and e.func.attr in ("search", "findall", "finditer") and isinstance(e.func.value, ast.Name) \
+                    and e.func.value.id in pk.module.consts:
+                rx = pk.module.consts[e.func.value.id][-1]
+                if isinstance(rx, ast.Call) and unparse(rx.func) == "re.compile" and rx.args and isinstance(rx.args[0], ast.Constant) and isinstance(rx.args[0].value, (bytes, str)):
+                    fl_node = rx.args[1] if len(rx.args) > 1 else next((k.value for k in rx.keywords if k.arg == "flags"), None)
+                    flags = 0
+                    for nm in (unparse(fl_node).replace("re.", "").split("|") if fl_node is not None else []):
+                        flags |= getattr(re, nm.strip(), 0)
+                    cre = re.compile(rx.args[0].value, flags)
+                    as_b = isinstance(rx.args[0].value, bytes)
+                    heads = ["[bumpver]", "[tool.bumpver]", "[pycalver]"]
+                    variants = ["{h}\n", "{h}\r\n", "{h} \n", "{h}\t\r\n", "{h}"]      # LF, CRLF, trailing blanks, end of file
+                    missed = []
+                    for h in heads:
+                        for v_ in variants:
+                            txt = "[metadata]\nname = x\n\n" + v_.format(h=h) + ("current_version = 1\n" if v_ != "{h}" else "")
+                            if not cre.search(txt.encode() if as_b else txt):
+                                missed.append(v_.format(h=h))
+                    ctx.check("R4", not missed, f"section detection `{unparse(rx)[:50]}` finds every header spelling the readers accept",
+                              "config._pick_config_filepath: an existing bumpver section is not recognised in some files the readers accept",
+                              f"`{unparse(rx)[:80]}` misses {missed[:4]!r}: a configured file saved with CRLF line endings or with blanks after the header is not preferred; "
+                              f"`show` reads another file and `init` writes a second configuration", loc=pk.loc(leaf), witness={"header line": missed[0]} if missed else None)
+                    return "SECTION", pol
             raise AnalysisError(f"C19/R4: section test leaf not enumerated: {unparse(leaf)}")
         # the section test as the path condition states it (atoms may be the operands of a short-circuit test or one
         # boolean local): each atom is replaced by what it means in terms of the byte strings searched for
         meaning = {a: shapes.bool_expr_bf(inline(ast.parse(a, mode="eval").body), classify) for a in sec_atoms}
         sec = r.exists(ex_atom[0]).project(sec_atoms).compose(meaning) if sec_atoms else BF.true()
         want_sec = (BF.var("bumpver]") | BF.var("pycalver]")) & BF.var("current_version")
+        if "SECTION" in sec.atoms:
+            want_sec = BF.var("SECTION") & BF.var("current_version")
         ctx.check("R4", r.implies(BF.var(ex_atom[0])) and sec.equiv(want_sec),
                   "first pass returns the first existing candidate holding a bumpver/pycalver section and current_version",
                   "config._pick_config_filepath: preference for already configured files changed", f"returns when {r.to_dnf()} with section test {sec.to_dnf()}", loc=pk.loc(first))
